@@ -79,7 +79,9 @@ CONSTANTS Writers, Streamers, Keys,
           Auth,           \* [Writers -> [Keys -> Nat]]: authority per channel
           Idx,            \* [Keys -> Keys \cup {"none"}]: the index channel of a data channel
           OpenSubs,       \* subscriptions the environment may open a streamer with
-          Subs,           \* subscriptions the environment may re-subscribe to
+          Subs,           \* subscriptions the environment may re-subscribe to; {} included: a request with
+                          \* a nil / empty channel list subscribes to NOTHING (keys[s] = {}, every frame is
+                          \* filtered away) until the next re-subscription
           CloseModes,     \* subset of {"graceful", "cancel"}
           LateOpen,       \* writers opened during the run (the others are open at Init)
           InitConns,      \* sequence of streamers already connected at Init (small model-checking
